@@ -286,8 +286,10 @@ class IntegralOrchestration(Task):
             a = np.asarray(a)
             return NDArray(list(a.shape), lambda ix, a=a: int(a[tuple(as_const(to_z3(i)) for i in ix)]), "int")
         cells = [{"indexes": [[Vec(list(lo), "array"), Vec(list(hi), "array")] for lo, hi in self.BOXES[lv]],
-                  "files": [f"Level_{lv}/Cell_D_{b:05d}" for b in range(len(self.BOXES[lv]))],
-                  "offsets": [1000 * lv + 10 * b for b in range(len(self.BOXES[lv]))]} for lv in range(3)]
+                  # any distribution of boxes over binary files: file names decreasing with the box number at level 0, one
+                  # shared file at level 1 with the boxes stored in the reverse of their header order
+                  "files": [f"Level_{lv}/Cell_D_{(0 if lv == 1 else len(self.BOXES[lv]) - 1 - b):05d}" for b in range(len(self.BOXES[lv]))],
+                  "offsets": [1000 * lv + 10 * (len(self.BOXES[lv]) - b) for b in range(len(self.BOXES[lv]))]} for lv in range(3)]
         dx = [Vec([0.5 / 2 ** lv, 0.25 / 2 ** lv, 1.0 / 2 ** lv], "array") for lv in range(3)]
         pck = Record("amr_kitchen.plotfile_cooker.PlotfileCooker", fields={"rho": 0, "volFrac": 1, "temp": 2}, pfile="plt",
                      limit_level=2, grid_sizes=[Vec(list(g), "array") for g in grids], box_arrays=[conc(m) for m in maps],
@@ -315,15 +317,25 @@ class IntegralOrchestration(Task):
         for k in range(len(calls)):
             total = total + W(z3.IntVal(k))
         ctx.oblige("post.integral-is-the-sum-of-the-workers-results", veq(ctx, out.value, total), "P")
-        for k, ((lv, b), (kind, a)) in enumerate(zip(want, calls)):
-            ok = isinstance(a, dict)
-            tag = f"[level {lv}, box {b}]"
-            ctx.structure(f"post.task-is-a-dict{tag}", ok)
-            if not ok:
+        ctx.structure("post.tasks-are-dicts", all(isinstance(a, dict) for _, a in calls))
+        if not all(isinstance(a, dict) for _, a in calls):
+            return
+        # a task is the task OF the box whose file and read offset it names (the order of the tasks is free: the result is a sum)
+
+        def box_of(a):
+            for (lv, b) in want:
+                if a.get("file") == inp["cells"][lv]["files"][b] and veq(ctx, a.get("offset"), inp["cells"][lv]["offsets"][b]) is True:
+                    return (lv, b)
+            return None
+        owners = [box_of(a) for _, a in calls]
+        ctx.oblige("post.every-box-up-to-the-limit-has-exactly-one-task-with-its-own-file-and-offset", sorted(o for o in owners if o is not None) == want, "P",
+                   note=str(owners))
+        for k, (own, (kind, a)) in enumerate(zip(owners, calls)):
+            if own is None:
                 continue
+            lv, b = own
+            tag = f"[level {lv}, box {b}]"
             ctx.oblige(f"post.masked-below-the-limit-only{tag}", kind == ("masked" if lv < L else "plain"), "P")
-            ctx.oblige(f"post.own-file-and-offset{tag}", a.get("file") == inp["cells"][lv]["files"][b] and
-                       veq(ctx, a.get("offset"), inp["cells"][lv]["offsets"][b]), "P")
             ctx.oblige(f"post.field-and-volume-fraction-components{tag}", veq(ctx, a.get("id_int"), 2) and
                        (veq(ctx, a.get("id_vol"), 1) if self.volfrac else a.get("id_vol") is None), "P")
             dv = (0.5 / 2 ** lv) * (0.25 / 2 ** lv) * (1.0 / 2 ** lv)
